@@ -14,6 +14,7 @@ def main():
     ap.add_argument("--props", default=",".join(sorted(plan.PLAN)))
     ap.add_argument("--jobs", type=int, default=4)
     ap.add_argument("--timeout", type=int, default=900)
+    ap.add_argument("--merge", action="store_true", help="add to the existing coverage_report.json instead of replacing it")
     a = ap.parse_args()
     wd = os.path.join(VERIF, "work", "coverage-%d" % os.getpid())
     v = core.Validator(wd)
@@ -48,11 +49,17 @@ def main():
                 print("%s %s %s rc=%d labels taken %d/%d" % (prop, mname, c, rc, sum(1 for x in cov.values() if x), len(cov)), flush=True)
     finally:
         shutil.rmtree(wd, ignore_errors=True)
+    rp = os.path.join(VERIF, "coverage_report.json")
+    if a.merge and os.path.exists(rp):
+        old = json.load(open(rp))
+        for k, x in old.get("label_counts", {}).items():
+            t = total.setdefault(k, {"back": 0, "mp11": 0}); t["back"] += x["back"]; t["mp11"] += x["mp11"]
+        runs = old.get("runs", []) + runs
     never = sorted(k for k, x in total.items() if x["back"] == 0 and x["mp11"] == 0)
     rep = {"labels": len(total), "never_taken": never,
            "taken_only_in_back": sorted(k for k, x in total.items() if x["back"] and not x["mp11"]),
            "taken_only_in_mp11": sorted(k for k, x in total.items() if x["mp11"] and not x["back"]),
-           "runs": runs}
+           "label_counts": total, "runs": runs}
     json.dump(rep, open(os.path.join(VERIF, "coverage_report.json"), "w"), indent=1)
     print("labels: %d, never taken by any model-checking job: %s" % (len(total), never))
 
